@@ -4,7 +4,7 @@ SPEC = {
     "runners": [{
         "kind": "wqcases", "module": "CorrC16", "harness": "wqscript", "prop": "C16",
         "corr": "Run/CorrC16.v + Run/CorrWQ.v (model of the work queue vs /repo/workqueue, scripted schedules)",
-        "rule": "each case = one script (stimuli Enqueue/work completion/Dequeue(any item: executing, handed off, waiting at any heap index, finished, unknown)/SetPriority/adjust-function value change; Dequeue and SetPriority only while the dispatcher goroutine is parked at its select, one at a time, quiescence detected from goroutine stacks) run on the real queue and replayed in Coq on Model/WQ.v with every interleaving of internal steps explored; observed = which work functions start after each stimulus, which Enqueue calls returned, WorkItems(), adjust-function consultations. Generated as: refutation witnesses of Findings/WQ.v first, every word over a small stimulus alphabet (small scope), adaptive random scripts that fill the queue. distinct = by (W, L, stimulus list); half of the random scripts change adjust-function values often (so that they differ from the stored priorities when Dequeue/SetPriority is called), plus corpus scripts for exactly that; besides the model replay a black-box monitor evaluates C16's clauses on the observed history alone (nil Dequeue => target never starts and leaves WorkItems(); error => nothing changes; executing => error; unknown/finished => nil no-op; SetPriority shows p and leaves other priorities alone; every other accepted item has started when the script has run to completion). non-trivial = the script contains a Dequeue or SetPriority call with a definite result and at least one item had to wait (so the call could hit a waiting or handed-off item).",
+        "rule": "each case = one script (stimuli Enqueue/work completion/Dequeue(any item: executing, handed off, waiting at any heap index, finished, unknown)/SetPriority/adjust-function value change; Dequeue and SetPriority only while the dispatcher goroutine is parked at its select, one at a time, quiescence detected from goroutine stacks) run on the real queue and replayed in Coq on Model/WQ.v with every interleaving of internal steps explored; observed = which work functions start after each stimulus, which Enqueue calls returned, WorkItems(), adjust-function consultations. Generated as: refutation witnesses of Findings/WQ.v first, every word over a small stimulus alphabet (small scope), adaptive random scripts that fill the queue. distinct = by (W, L, stimulus list); half of the random scripts change adjust-function values often (so that they differ from the stored priorities when Dequeue/SetPriority is called), plus corpus scripts for exactly that; besides the model replay a black-box monitor evaluates C16's clauses on the observed history alone (nil Dequeue => target never starts and leaves WorkItems(); error => nothing changes; executing => error; unknown/finished => nil no-op; SetPriority shows p and leaves other priorities alone; every other accepted item has started when the script has run to completion). every fourth random script uses SetPriority arguments / priorities / adjust values at the ends of the int range. non-trivial = the script contains a Dequeue or SetPriority call with a definite result and at least one item had to wait (so the call could hit a waiting or handed-off item).",
     }],
     "trusted": ["channels, select, sync.Map, atomics, context are modelled by contract (one step each)",
                 "quiescence detector (all goroutines blocked in two consecutive runtime.Stack snapshots)",
